@@ -279,6 +279,227 @@ def device_case(kind, move, t, dates, x):
     return res
 
 
+
+# ----------------------------------------------------------------------------- live models, update histories
+STYLES = {"ratio": ("plain", "cat", "transformed", "flexible"), "difference": ("plain", "json", "transformed", "flexible")}
+
+
+def taxa_json(dates):
+    return {"id": "taxa", "type": "Taxa",
+            "taxa": [{"id": f"T{i}", "type": "Taxon", "attributes": {"date": d}} for i, d in enumerate(dates)]}
+
+
+def pjson(id_, values):
+    return {"id": id_, "type": "Parameter", "tensor": values, "dtype": "torch.float64"}
+
+
+def tjson(id_, transform, x):
+    return {"id": id_, "type": "TransformedParameter", "transform": transform, "x": x}
+
+
+def build_live(kind, style, t, dates, rows, batched):
+    """a LIVE ReparameterizedTimeTreeModel. Returns (model, leaves) where leaves is a list of
+    (Parameter that an optimiser would own, function values->list giving the constrained slice it stands for,
+     column slice of the tree's parameter vector)."""
+    from torchtree import Parameter
+    from torchtree.evolution.tree_model import ReparameterizedTimeTreeModel
+
+    n = G.ntips(t)
+    val = rows if batched else rows[0]
+    cols = lambda a, b: ([r[a:b] for r in rows] if batched else rows[0][a:b])  # noqa: E731
+    if style == "flexible":
+        # a time tree whose internal heights are a TransformedParameter over a node-height transform of that
+        # same tree (the configuration test/test_tree_height_transform.py builds)
+        from torchtree.evolution.tree_model_flexible import FlexibleTimeTreeModel
+
+        dic = {}
+        cls_, arg = (("GeneralNodeHeightTransform", "tree") if kind == "ratio"
+                     else ("DifferenceNodeHeightTransform", "tree_model"))
+        js = {"id": "tree", "type": "FlexibleTimeTreeModel", "newick": G.newick(t), "taxa": taxa_json(dates),
+              "internal_heights": dict(tjson("heights", "torchtree.evolution.tree_height_transform." + cls_,
+                                             pjson("heights.x", val)), parameters={arg: "tree"})}
+        m = FlexibleTimeTreeModel.from_json(js, dic)
+        m.transform = dic["heights"].transform  # handle for the harness only
+        return m, [(dic["heights.x"], "id", (0, n - 1))]
+    if style == "plain":
+        m = G.make_reparam(t, dates, torch.tensor(val, dtype=DT), kind)
+        p = m._internal_heights
+        return m, [(p, "id", (0, n - 1))]
+    dic = {}
+    js = {"id": "tree", "type": "ReparameterizedTimeTreeModel", "newick": G.newick(t), "taxa": taxa_json(dates)}
+    if kind == "ratio":
+        if style == "cat":
+            js["ratios"] = pjson("ratios", cols(0, n - 2))
+            js["root_height"] = pjson("root_height", cols(n - 2, n - 1))
+            kinds = ("id", "id")
+        else:
+            u = torch.logit(torch.tensor(cols(0, n - 2), dtype=DT)).tolist()
+            v = torch.log(torch.tensor(cols(n - 2, n - 1), dtype=DT)).tolist()
+            js["ratios"] = tjson("ratios", "torch.distributions.SigmoidTransform", pjson("ratios.unres", u))
+            js["root_height"] = tjson("root_height", "torch.distributions.ExpTransform", pjson("root_height.unres", v))
+            kinds = ("sigmoid", "exp")
+        m = ReparameterizedTimeTreeModel.from_json(js, dic)
+        names = ("ratios", "root_height") if style == "cat" else ("ratios.unres", "root_height.unres")
+        return m, [(dic[names[0]], kinds[0], (0, n - 2)), (dic[names[1]], kinds[1], (n - 2, n - 1))]
+    if style == "json":
+        js["shifts"] = pjson("shifts", cols(0, n - 1))
+        m = ReparameterizedTimeTreeModel.from_json(js, dic)
+        return m, [(dic["shifts"], "id", (0, n - 1))]
+    u = torch.log(torch.tensor(cols(0, n - 1), dtype=DT)).tolist()
+    js["shifts"] = tjson("shifts", "torch.distributions.ExpTransform", pjson("shifts.unres", u))
+    m = ReparameterizedTimeTreeModel.from_json(js, dic)
+    return m, [(dic["shifts.unres"], "exp", (0, n - 1))]
+
+
+def to_unconstrained(kind, values):
+    v = torch.tensor(values, dtype=DT)
+    return {"id": v, "sigmoid": torch.logit(v), "exp": torch.log(v)}[kind]
+
+
+def from_unconstrained(kind, u):
+    return {"id": u, "sigmoid": torch.sigmoid(u), "exp": torch.exp(u)}[kind]
+
+
+def live_history(ck: Check, drv, kind, style, t, dates, batched, n_updates, rng):
+    """-> list of (clause, what, replay-steps) failures; also runs the Lean correspondence per step"""
+    n = G.ntips(t)
+    tr = G.paren(t)
+    B = rng.randrange(2, 4) if batched else 1
+    rows = draw_params(kind, t, dates, rng, B)
+    steps = []
+    fails = []
+    try:
+        m, leaves = build_live(kind, style, t, dates, rows, batched)
+        # what an observer reads before any update (fills every cache)
+        _ = m.node_heights, m.branch_lengths()
+    except Exception as e:
+        return [("build", f"building the live model raises {type(e).__name__}: {str(e)[:120]}", steps)], steps
+    cur = [list(r) for r in rows]
+    for k in range(n_updates):
+        leaf_i = rng.randrange(len(leaves))
+        p, pk, (a, b) = leaves[leaf_i]
+        new_rows = draw_params(kind, t, dates, rng, B)
+        mode = rng.choice(["assign", "inplace", "inplace"])
+        step = {"leaf": leaf_i, "mode": mode, "values": [r[a:b] for r in new_rows]}
+        steps.append(step)
+        vals = [r[a:b] for r in new_rows] if batched else new_rows[0][a:b]
+        u = to_unconstrained(pk, vals)
+        try:
+            if mode == "assign":
+                p.tensor = u
+            else:  # what torchtree.optim.Optimizer does after optimizer.step()
+                with torch.no_grad():
+                    p.tensor.copy_(u)
+                p.fire_parameter_changed()
+            expect = from_unconstrained(pk, u)
+            exp_rows = expect.tolist() if batched else [expect.tolist()]
+            for r, e in zip(cur, exp_rows):
+                r[a:b] = e
+            H = m.node_heights.detach().clone()
+            bl = m.branch_lengths().detach().clone()
+            inv = m.transform.inv(H[..., n:]).detach().clone()
+            edges = G.dendropy_edges(m)
+        except RecursionError:
+            fails.append(("update-recursion", f"update {k} ({mode}) recurses without end", list(steps)))
+            break
+        except Exception as e:
+            fails.append(("update-raises", f"update {k} ({mode}) raises {type(e).__name__}: {str(e)[:120]}", list(steps)))
+            break
+        case = {"tree": tr, "dates": dates, "kind": kind, "x": [list(r) for r in cur], "batched": batched}
+        xt = torch.tensor(cur if batched else cur[0], dtype=DT)
+        obs = {"n": n, "x": xt, "H": H, "bl": bl, "inv": inv, "edges": edges}
+        for clause, what in oracle(case, obs):
+            fails.append((clause, f"after update {k} ({mode} of leaf {leaf_i}): {what}", list(steps)))
+        # fresh rebuild at the current values: a live model must agree with it
+        try:
+            fresh = G.make_reparam(t, dates, xt, kind)
+            Hf, blf = fresh.node_heights, fresh.branch_lengths()
+            tol = 0 if pk == "id" and style != "transformed" else 1e-12
+            if not (torch.allclose(H, Hf, rtol=tol, atol=tol) and torch.allclose(bl, blf, rtol=tol, atol=tol)):
+                fails.append(("stale", f"after update {k} ({mode} of leaf {leaf_i}) node_heights/branch_lengths are "
+                              f"{H.tolist()} / {bl.tolist()} but a model built at the current values has "
+                              f"{Hf.tolist()} / {blf.tolist()}", list(steps)))
+        except Exception as e:
+            fails.append(("fresh", f"fresh model raises {type(e).__name__}: {e}", list(steps)))
+        # Lean model at the current values
+        if drv is not None:
+            try:
+                leaf_m = [Fraction(v) for v in drv.ask("leaf R | " + " ".join(G.rat_str(d) for d in dates)).split()]
+                s_f = " ".join(f2h(float(v)) for v in leaf_m)
+                Hr = rows_of(H, batched)
+                blr = rows_of(bl, batched)
+                for bi, xrow in enumerate(cur):
+                    x_f = " ".join(f2h(v) for v in xrow)
+                    op = f"rfwd F {n} {tr}" if kind == "ratio" else f"dfwd F {n} {tr} 0"
+                    h_m = [h2f(v) for v in drv.ask(f"{op} | {s_f} | {x_f}").split()]
+                    h_s = " ".join(f2h(v) for v in h_m)
+                    bl_m = [h2f(v) for v in drv.ask(f"bl F {n} {tr} | {s_f} | {h_s}").split()]
+                    if not all(rel_close(a_, c_) for a_, c_ in zip(Hr[bi][n:], h_m)) or len(h_m) != n - 1:
+                        ck.mismatch("live model: heights after update differ from the Lean model",
+                                    {"case": case, "steps": list(steps), "impl": Hr[bi][n:], "model": h_m})
+                    elif not all(rel_close(a_, c_) for a_, c_ in zip(blr[bi], bl_m)):
+                        ck.mismatch("live model: branch lengths after update differ from the Lean model",
+                                    {"case": case, "steps": list(steps), "impl": blr[bi], "model": bl_m})
+            except Exception as e:
+                ck.mismatch("correspondence step failed", {"error": f"{type(e).__name__}: {e}"})
+    return fails, {"tree": tr, "dates": dates, "kind": kind, "style": style, "batched": batched,
+                   "x": rows, "steps": steps}
+
+
+def replay_live(obj):
+    """re-execute a recorded update history on a live model"""
+    t = G.parse_paren(obj["tree"])
+    n = G.ntips(t)
+    kind, style, batched, dates = obj["kind"], obj["style"], obj["batched"], obj["dates"]
+    rows = obj["x"]
+    bad = []
+    try:
+        m, leaves = build_live(kind, style, t, dates, rows, batched)
+        _ = m.node_heights, m.branch_lengths()
+    except Exception as e:
+        print("building the live model raises", type(e).__name__, e)
+        return 1
+    cur = [list(r) for r in rows]
+    for k, st in enumerate(obj["steps"]):
+        p, pk, (a, b) = leaves[st["leaf"]]
+        vals = st["values"] if batched else st["values"][0]
+        u = to_unconstrained(pk, vals)
+        try:
+            if st["mode"] == "assign":
+                p.tensor = u
+            else:
+                with torch.no_grad():
+                    p.tensor.copy_(u)
+                p.fire_parameter_changed()
+            e_rows = from_unconstrained(pk, u).tolist() if batched else [from_unconstrained(pk, u).tolist()]
+            for r, e in zip(cur, e_rows):
+                r[a:b] = e
+            H = m.node_heights.detach().clone()
+            bl = m.branch_lengths().detach().clone()
+            inv = m.transform.inv(H[..., n:]).detach().clone()
+        except RecursionError:
+            print(f"update {k} ({st['mode']}): RecursionError")
+            return 1
+        except Exception as e:
+            print(f"update {k} ({st['mode']}): raises {type(e).__name__}: {e}")
+            return 1
+        xt = torch.tensor(cur if batched else cur[0], dtype=DT)
+        case = {"tree": obj["tree"], "dates": dates, "kind": kind, "x": cur, "batched": batched}
+        obs = {"n": n, "x": xt, "H": H, "bl": bl, "inv": inv, "edges": G.dendropy_edges(m)}
+        fresh = G.make_reparam(t, dates, xt, kind)
+        print(f"update {k} ({st['mode']} leaf {st['leaf']}): parameters {cur}\n  live  node_heights {H.tolist()}\n"
+              f"  fresh node_heights {fresh.node_heights.tolist()}")
+        for clause, what in oracle(case, obs):
+            bad.append(clause)
+            print(f"  VIOLATES [{clause}]: {what}")
+        if not torch.allclose(H, fresh.node_heights, rtol=1e-12, atol=1e-12) or not torch.allclose(
+                bl, fresh.branch_lengths(), rtol=1e-12, atol=1e-12):
+            bad.append("stale")
+            print("  VIOLATES [stale]: the live model does not reflect its current parameters")
+    print("VIOLATES" if bad else "property holds on this history")
+    return 1 if bad else 0
+
+
 # ----------------------------------------------------------------------------- case streams
 def corpus_cases():
     d = VERIF / "corpus" / "C06"
@@ -415,8 +636,39 @@ def run(ck: Check):
                 rep = {k: case[k] for k in ("tree", "dates", "kind", "x", "batched")}
                 rep.update({"type": "transform", "k": case.get("k"), "newick": G.newick(G.parse_paren(case["tree"]))})
                 record(sig, what, rep, case_size(case))
-        # ---- device / dtype moves
         rng = ck.rng
+        # ---- live models: update histories (assignment and in-place + notification)
+        n_hist = 240 if ck.thorough() else 60
+        live_corpus = [c for c in corpus_cases() if c.get("type") == "live"]
+        for c in live_corpus:
+            rc_fail = []
+            try:
+                import io, contextlib
+                with contextlib.redirect_stdout(io.StringIO()) as buf:
+                    rc = replay_live(c)
+                if rc:
+                    rc_fail = [ln for ln in buf.getvalue().splitlines() if "VIOLATES [" in ln or "Error" in ln][:1]
+            except Exception as e:
+                rc, rc_fail = 1, [f"{type(e).__name__}: {e}"]
+            ck.case(key=("live-corpus", json.dumps(c, sort_keys=True)), bucket="live/corpus")
+            if rc:
+                record(f"live:{c['kind']}:{c['style']}:corpus", "corpus history fails: " + "; ".join(rc_fail),
+                       dict(c, type="live"), (len(c["dates"]), len(c["steps"]), 0))
+        for i in range(n_hist):
+            kind = ("ratio", "difference")[i % 2]
+            style = STYLES[kind][(i // 2) % 4]
+            n = rng.randrange(3, 8)
+            t = G.random_flip(G.random_topology(n, rng), rng)
+            schemes = G.date_schemes(n, rng)
+            sname = rng.choice(list(schemes))
+            batched = rng.random() < 0.4
+            fails, hist = live_history(ck, drv, kind, style, t, schemes[sname], batched, rng.randrange(2, 5), rng)
+            ck.case(key=("live", kind, style, hist["tree"] if isinstance(hist, dict) else "", batched, i),
+                    bucket=f"live/{kind}/{style}/{'batched' if batched else 'single'}")
+            for clause, what, steps in fails:
+                rep = dict(hist, steps=steps, type="live") if isinstance(hist, dict) else {"type": "live", "steps": steps}
+                record(f"live:{kind}:{style}:{clause}", what, rep, (n, len(steps), 0))
+        # ---- device / dtype moves
         dev_stream = [(c["kind"], c["move"], G.parse_paren(c["tree"]), c["dates"], c["x"][0])
                       for c in corpus_cases() if c.get("type") == "device" and c.get("move") in MOVES]
         for kind in ("ratio", "difference"):
@@ -427,8 +679,8 @@ def run(ck: Check):
                     schemes = G.date_schemes(n, rng)
                     sname = "ages" if rep_i == 0 else rng.choice(list(schemes))
                     dev_stream.append((kind, move, t, schemes[sname], draw_params(kind, t, schemes[sname], rng, 1)[0]))
-        if True:
-            if True:
+        for _once in (0,):
+            for _once2 in (0,):
                 for kind, move, t, dates_, x in dev_stream:
                     res = device_case(kind, move, t, dates_, x)
                     ck.case(key=("device", kind, move, G.paren(t), tuple(dates_)), bucket=f"device/{kind}/{move}")
@@ -460,9 +712,12 @@ def run(ck: Check):
             drv.close()
 
     # ---- verdict
-    for sig, (_size, what, replay) in sorted(failures.items()):
+    ranked = sorted(failures.items(), key=lambda kv: (kv[1][0], kv[0]))
+    for sig, (_size, what, replay) in ranked[:6]:  # the smallest failing inputs; the rest is listed in the evidence
         replay = dict(replay, broken_obligations=broken, replay_cmd="./check C06 --replay <this file>")
         ck.violation(sig, what, replay)
+    if len(ranked) > 6:
+        ck.extra["further_failing_signatures"] = [f"{sig}: {v[1][:160]}" for sig, v in ranked[6:40]]
     if not failures and (not ok or ck.mismatches):
         ck.violation(
             "C06:unproved",
@@ -490,6 +745,8 @@ def replay(path: str) -> int:
         if not bad:
             print("property holds on this input")
         return 1 if bad else 0
+    if typ == "live":
+        return replay_live(obj)
     if typ == "device":
         t = G.parse_paren(obj["tree"])
         res = device_case(obj["kind"], obj["move"], t, obj["dates"], obj["x"][0])
